@@ -691,8 +691,226 @@ class AdjustPosterior(Contract):
         return dict(function='adjust_posterior', p=self.p)
 
 
+# ---------------------------------------------------------------- ghost lemmas (lemmas/c17_lemmas.py)
+class LemmaSumExt(Contract):
+    """pointwise equal summands on [0,n) give equal prefix sums at every m <= n"""
+    target = '@verif/lemmas/c17_lemmas.py::lemma_sum_ext'
+    prop = 'C17'
+    fin = 5
+
+    def setup(self, vc):
+        n, m = z3.Ints('n m')
+        a, b, A, Bp = [z3.Function(x, I, R) for x in ('a', 'b', 'A', 'Bp')]
+        hyp, goal = stmt_sum_ext(n, a, b, A, Bp, m)
+        vc.fin_bounds.extend([n, m])
+        s = NS(n=n, m=m, a=a, b=b, A=A, Bp=Bp, hyp=hyp, goal=goal)
+        vc._s = s
+        return s, (SInt(m),), {}
+
+    def env(self, vc):
+        s = vc._s
+
+        def inst(j):
+            j = T(j)            # instances at j of the quantified hypotheses (recursion equations, pointwise equality)
+            vc.assume(z3.Implies(z3.And(0 <= j, j < s.n), z3.And(s.A(j + 1) == s.A(j) + s.a(j), s.Bp(j + 1) == s.Bp(j) + s.b(j), s.a(j) == s.b(j))))
+        return dict(inst=inst)
+
+    def requires(self, s):
+        return [s.hyp]
+
+    loops = {0: Loop(inv=lambda s, l: [z3.And(0 <= T(l.j), T(l.j) <= s.m), s.A(T(l.j)) == s.Bp(T(l.j))])}
+
+    def ensures(self, s, result):
+        return [('A(m) = B(m)', s.goal)]
+
+
+class LemmaSignCancels(Contract):
+    """flipping the sign convention of the regressors flips the least-squares slope with it (assumed OLS contract, sanity-tested) and
+    theta - X.b is unchanged: sum_c (-x_c)(-b_c) = sum_c x_c b_c"""
+    target = '@verif/lemmas/c17_lemmas.py::lemma_sign_cancels'
+    prop = 'C17'
+    fin = 5
+
+    def setup(self, vc):
+        m = z3.Int('m')
+        th = z3.Real('theta')
+        x, b, P, Pn = [z3.Function(nm, I, R) for nm in ('x', 'b', 'P', 'Pn')]
+        vc.fin_bounds.append(m)
+        s = NS(m=m, th=th, x=x, b=b, P=P, Pn=Pn)
+        vc._s = s
+        return s, (SInt(m),), {}
+
+    def env(self, vc):
+        s = vc._s
+
+        def use_sum_ext(m):
+            hyp, goal = stmt_sum_ext(s.m, lambda c: (-s.x(c)) * (-s.b(c)), lambda c: s.x(c) * s.b(c), s.Pn, s.P)
+            vc.oblige('call-pre[lemma_sum_ext hypotheses]', hyp)
+            vc.assume(goal)                 # proved by LemmaSumExt
+        return dict(use_sum_ext=use_sum_ext)
+
+    def requires(self, s):
+        return [s.m >= 0, prefix_def(s.P, s.m, lambda c: s.x(c) * s.b(c)), prefix_def(s.Pn, s.m, lambda c: (-s.x(c)) * (-s.b(c)))]
+
+    def ensures(self, s, result):
+        return [('theta - (-x).(-b) = theta - x.b', s.th - s.Pn(s.m) == s.th - s.P(s.m))]
+
+
+# ---------------------------------------------------------------- compare_models
+def cm_inputs(vc, M, priors, tag=''):
+    """M sample stubs with symbolic sizes, discrepancy vectors and simulation counts; optional prior weights"""
+    ns = [z3.Int('n%s%d' % (tag, j)) for j in range(M)]
+    sims = [z3.Int('n_sim%s%d' % (tag, j)) for j in range(M)]
+    d = [z3.Function('d%s%d' % (tag, j), I, R) for j in range(M)]
+    objs = [make_object('SampleStub', attrs=dict(n_samples=SInt(ns[j]), n_sim=SInt(sims[j]),
+                                                 discrepancies=SArr.from_fn((lambda t, f=d[j]: f(t)), (ns[j],), 'real'))) for j in range(M)]
+    pri = [z3.Real('prior%s%d' % (tag, j)) for j in range(M)] if priors else None
+    return NS(M=M, ns=ns, sims=sims, dv=d, objs=objs, pri=pri)
+
+
+def cm_spec(x):
+    """block offsets, total size, n_min and the concatenated discrepancy of the property statement (from the inputs only)"""
+    low = [z3.IntVal(0)]
+    for n in x.ns:
+        low.append(low[-1] + n)
+    nmin = x.ns[0]
+    for n in x.ns[1:]:
+        nmin = z3.If(n < nmin, n, nmin)
+
+    def dcat(g):
+        r = x.dv[-1](g - low[x.M - 1])
+        for j in reversed(range(x.M - 1)):
+            r = z3.If(g < low[j + 1], x.dv[j](g - low[j]), r)
+        return r
+    return NS(low=low, N=low[-1], nmin=nmin, dcat=dcat)
+
+
+def cm_pre(x, positive=True):
+    out = [z3.And([n >= (1 if positive else 0) for n in x.ns]), z3.And([q >= 1 for q in x.sims])]
+    if x.pri is not None and positive:
+        out.append(z3.And([w > 0 for w in x.pri]))
+    return out
+
+
+def cm_priors_arg(x):
+    return None if x.pri is None else SArr.from_fn(lambda i: _ite_chain(i, x.pri), (x.M,), 'real')
+
+
+def _ite_chain(i, vals):
+    r = vals[-1]
+    for k in reversed(range(len(vals) - 1)):
+        r = z3.If(i == k, vals[k], r)
+    return r
+
+
+def cm_final_sum_hook(M):
+    """ghost steps at the final p_models.sum(): unfold the (concrete-length) prefix sum, and show that the smallest draw is counted for
+    some model, so that the normaliser is positive.  Every step is a cut (proved from the library axioms in force, then used)."""
+    def h(vc, rec):
+        ps, arr = rec['ps'], rec['arr']
+        for j in range(M):
+            vc.cut('unfold the sum of the %d unnormalised weights at %d' % (M, j), ps(j + 1) == ps(j) + arr.at(j))
+        p = vc.libcalls['np.argsort'][0]
+        vc.cut('the first sorted index is a valid position', z3.Implies(p.n >= 1, z3.And(0 <= p.pi(0), p.pi(0) < p.n)))
+        for i in range(M):
+            mk = vc.libcalls['np.sum'][i]['mask']
+            k, sel, rank, msk = mk.select()
+            vc.cut('model %d: a counted first draw makes the count positive' % i, z3.And(k >= 0, z3.Implies(z3.And(msk.shape[0] >= 1, msk.at(0)), k >= 1)))
+    return h
+
+
+class CompareModels(Contract):
+    target = MS + 'compare_models'
+    prop = 'C17'
+    fin = 3
+
+    def __init__(self, M, priors, guarded=False):
+        self.M, self.priors, self.guarded = M, priors, guarded
+        self.label = '%d-models,%s%s' % (M, 'prior-weights' if priors else 'no-priors', ',any-sign' if guarded else '')
+        self.fin_range = 3 * M + 1
+        if guarded:
+            self.options = {'div_check': False}
+
+    def setup(self, vc):
+        x = cm_inputs(vc, self.M, self.priors)
+        vc.fin_bounds.extend(x.ns + x.sims)
+        s = NS(x=x, sp=cm_spec(x))
+        return s, (list(x.objs),), dict(model_priors=cm_priors_arg(x))
+
+    def requires(self, s):
+        return cm_pre(s.x, positive=not self.guarded)
+
+    def hooks(self, s):
+        return {} if self.guarded else {('np.sum', self.M): cm_final_sum_hook(self.M)}
+
+    def ensures(self, s, result):
+        return cm_posts(cur(), s.x, s.sp, result, 0, 0, guarded=self.guarded)
+
+    def witness(self, vc, model, ob):
+        return cm_witness(s_x=None, model=model, M=self.M, priors=self.priors)
+
+
+def cm_posts(vc, x, sp, result, argsort_ord, sum_ord, guarded=False):
+    """postconditions of one compare_models call (argsort_ord / sum_ord: ordinals of its first np.argsort / np.sum library calls)"""
+    M = x.M
+    if not isinstance(result, SArr) or result.ndim != 1 or len(vc.libcalls.get('np.argsort', [])) <= argsort_ord or \
+            len(vc.libcalls.get('np.sum', [])) < sum_ord + M + 1:
+        return [('the result is a vector computed from one argsort and one count per model', z3.BoolVal(False))]
+    p = vc.libcalls['np.argsort'][argsort_ord]
+    low, N, nmin, dcat = sp.low, sp.N, sp.nmin, sp.dcat
+    out = [('the order is taken over the concatenation of the discrepancy vectors, in list order',
+            z3.And(p.n == N, forall_range(0, N, lambda g: p.of.at(g) == dcat(g), 'g'))),
+           ('the n_min counted draws are jointly smallest: no uncounted draw is smaller than a counted one (free choice among ties)',
+            forall2_range(0, N, lambda t, g: z3.Implies(z3.And(t < nmin, p.pinv(g) >= nmin), dcat(p.pi(t)) <= dcat(g))))]
+    ks = []
+    for i in range(M):
+        rec = vc.libcalls['np.sum'][sum_ord + i]
+        if 'mask' not in rec:
+            return out + [('count %d is the sum of a boolean mask' % i, z3.BoolVal(False))]
+        k, sel, rank, msk = rec['mask'].select()
+        ks.append(k)
+        inblock = lambda t, i=i: z3.And(low[i] <= p.pi(t), p.pi(t) < low[i + 1])
+        out.append(('count_%d = |{t < n_min : low_%d <= inds[t] < low_%d + n_%d}|, low_%d = sum of the earlier sample sizes (bijection witness)' % (i, i, i, i, i),
+                    z3.And(k >= 0,
+                           forall_range(0, k, lambda j: z3.And(0 <= sel(j), sel(j) < nmin, inblock(sel(j)), rank(sel(j)) == j), 'j'),
+                           forall_range(0, nmin, lambda t: z3.Implies(inblock(t), z3.And(0 <= rank(t), rank(t) < k, sel(rank(t)) == t)), 't'))))
+    pr = [z3.ToReal(ks[i]) / z3.ToReal(x.sims[i]) * (x.pri[i] if x.pri is not None else 1) for i in range(M)]
+    S = pr[0]
+    for q in pr[1:]:
+        S = S + q
+    tot = result.at(0)
+    for i in range(1, M):
+        tot = tot + result.at(i)
+    g = (lambda f: z3.Implies(S != 0, f)) if guarded else (lambda f: f)
+    out.append(('one probability per model', result.shape[0] == M))
+    out.append(('probability_i = p_i / sum_j p_j with p_i = count_i / n_sim_i * prior_i' + (' (whenever sum_j p_j != 0)' if guarded else ''),
+                g(z3.And([result.at(i) == pr[i] / S for i in range(M)]))))
+    out.append(('the probabilities sum to one' + (' (whenever sum_j p_j != 0)' if guarded else ''), g(tot == 1)))
+    if not guarded:
+        out.append(('every sample non-empty, n_sim >= 1, positive prior weights: the normaliser is positive and the probabilities are in [0, 1]',
+                    z3.And(S > 0, z3.And([z3.And(result.at(i) >= 0, result.at(i) <= 1) for i in range(M)]))))
+    return out
+
+
+def cm_witness(s_x, model, M, priors):
+    ev = lambda t: str(model.eval(t, model_completion=True))
+    w = dict(function='compare_models', M=M)
+    try:
+        ns = [int(ev(z3.Int('n%d' % j))) for j in range(M)]
+        w['n_samples'] = ns
+        w['n_sim'] = [int(ev(z3.Int('n_sim%d' % j))) for j in range(M)]
+        w['discrepancies'] = [[ev(z3.Function('d%d' % j, I, R)(z3.IntVal(t))) for t in range(max(0, min(ns[j], 8)))] for j in range(M)]
+        if priors:
+            w['priors'] = [ev(z3.Real('prior%d' % j)) for j in range(M)]
+    except Exception as e:
+        w['witness_error'] = str(e)
+    return w
+
+
 CONTRACTS = [InputVariables(1), InputVariables(3), GetFinite(1), GetFinite(2), Pairs(2), Fit(1, True), Fit(2, False),
-             Adjust1(), Adjust(2), AdjustPosterior(1, 'linear'), AdjustPosterior(2, 'instance')]
+             Adjust1(), Adjust(2), AdjustPosterior(1, 'linear'), AdjustPosterior(2, 'instance'),
+             LemmaSumExt(), LemmaSignCancels(),
+             CompareModels(2, False), CompareModels(2, True), CompareModels(3, False), CompareModels(3, True), CompareModels(3, True, guarded=True)]
 TRUSTED_BASE = []
 ASSUMPTIONS = []
 NOT_PROVED = []
